@@ -268,9 +268,6 @@ func (svc *service) stop() {
 		svc.sessMgr.Del(svc.sess.ID())
 	}
 
-	svc.conn = nil
-	svc.in = nil
-	svc.out = nil
 }
 
 func (svc *service) publish(msg *message.PublishMessage, onComplete OnCompleteFunc) error {
